@@ -433,23 +433,30 @@ theorem slc_mustBind_covered (H : Hash) (f g : SLCFields) (hf : SLC.wf f = true)
   obtain ⟨⟨h1, h2⟩, ⟨h3, h4, h5, h6⟩, h7, h8, h9, h10⟩ := hv
   simp only [SLC.mustBind, h1, h2, h3, h4, h5, h6, h7, h8, h9, h10]
 
-/-- **slc_delivered_determined_by_signed.** Equal signed tuples force equal delivered tuples once
-both messages have their fees set (before that `VerifyAgainstTX` dereferences a nil pointer:
-`deliveredVals = none`). -/
+/-- **slc_delivered_determined_by_signed.** Equal signed tuples force equal delivered tuples — no
+proviso: both sides pack `feesOrDefault(m.Fees)` (since /repo commit cab3e325; before it the
+delivery side had no tuple at all for `Fees == nil`, see `slc_prefix_nil_fees_undefined`). -/
 theorem slc_delivered_determined_by_signed (f g : SLCFields)
-    (hff : f.fees.isSome = true) (hfg : g.fees.isSome = true)
     (h : SLC.signedVals f = SLC.signedVals g) : SLC.deliveredVals f = SLC.deliveredVals g := by
-  cases hf : f.fees with
-  | none => simp [hf] at hff
-  | some x =>
-    cases hg : g.fees with
-    | none => simp [hg] at hfg
-    | some y =>
-      simp only [SLC.signedVals, callV, feeV, hf, hg, feesOrDefault, List.cons.injEq, V.word.injEq,
-        V.seq.injEq, V.bytes.injEq, and_true] at h
-      obtain ⟨⟨h1, h2⟩, ⟨h3, h4, h5, h6⟩, h7, -, h9, h10⟩ := h
-      have : x = y := by cases x; cases y; simp_all
-      simp only [SLC.deliveredVals, hf, hg, callV, feeV, h1, h2, this, h6, h7, h9, h10]
+  simp only [SLC.signedVals, callV, feeV, List.cons.injEq, V.word.injEq,
+    V.seq.injEq, V.bytes.injEq, and_true] at h
+  obtain ⟨⟨h1, h2⟩, ⟨h3, h4, h5, h6⟩, h7, -, h9, h10⟩ := h
+  simp only [SLC.deliveredVals, callV, feeV, h1, h2, h3, h4, h5, h6, h7, h9, h10]
+
+/-- regression witness: the PRE-FIX delivery side was undefined (nil dereference) for a message
+without fees, although such a message could be signed and receive evidence -/
+theorem slc_prefix_nil_fees_undefined (f : SLCFields) :
+    SLC.deliveredValsPreFix { f with fees := none } = none := rfl
+
+/-- … and wherever the pre-fix code was defined it packed what the fixed code packs -/
+theorem slc_prefix_agrees (f : SLCFields) (vals : List V) (h : SLC.deliveredValsPreFix f = some vals) :
+    vals = SLC.deliveredVals f := by
+  unfold SLC.deliveredValsPreFix at h
+  split at h
+  · cases h
+  · rename_i fe hfe
+    injection h with h
+    simp [SLC.deliveredVals, hfe, feesOrDefault, ← h]
 
 /-! ### UploadUserSmartContract -/
 
@@ -466,19 +473,11 @@ theorem usc_mustBind_covered (H : Hash) (f g : USCFields) (hf : USC.wf f = true)
 
 /-- **usc_delivered_determined_by_signed.** -/
 theorem usc_delivered_determined_by_signed (f g : USCFields)
-    (hff : f.fees.isSome = true) (hfg : g.fees.isSome = true)
     (h : USC.signedVals f = USC.signedVals g) : USC.deliveredVals f = USC.deliveredVals g := by
-  cases hf : f.fees with
-  | none => simp [hf] at hff
-  | some x =>
-    cases hg : g.fees with
-    | none => simp [hg] at hfg
-    | some y =>
-      simp only [USC.signedVals, feeV, hf, hg, feesOrDefault, List.cons.injEq, V.word.injEq,
-        V.seq.injEq, V.bytes.injEq, and_true] at h
-      obtain ⟨h1, h2, ⟨h3, h4, h5, h6⟩, h7, -, h9, h10⟩ := h
-      have : x = y := by cases x; cases y; simp_all
-      simp only [USC.deliveredVals, hf, hg, feeV, h1, h2, this, h6, h7, h9, h10]
+  simp only [USC.signedVals, feeV, List.cons.injEq, V.word.injEq,
+    V.seq.injEq, V.bytes.injEq, and_true] at h
+  obtain ⟨h1, h2, ⟨h3, h4, h5, h6⟩, h7, -, h9, h10⟩ := h
+  simp only [USC.deliveredVals, feeV, h1, h2, h3, h4, h5, h6, h7, h9, h10]
 
 /-! ### CompassHandover -/
 
